@@ -192,6 +192,11 @@ def nontrivial_auto(trace):
 
 
 MSGS = ["BB", "C", "DDDD", "xyz", "Installing", "Resolving"]
+WIDTH_AUTO, WIDTH_MANUAL = 40, 60
+# messages whose decorated frame (blank, value, blank, message) is one or two cells short of the row, and fills it exactly
+FULL_ROW = ["L" * (WIDTH_AUTO - 3), "K" * (WIDTH_AUTO - 4)]
+FULL_ROW_MANUAL = ["M" * (WIDTH_MANUAL - 3), "N" * (WIDTH_MANUAL - 4), "O" * (WIDTH_MANUAL - 5)]
+BEYOND_ROW = ["P" * (WIDTH_MANUAL + 20), "Q" * 150]  # legal on a not decorated output, where nothing has to fit a row
 
 
 def random_case(rng):
@@ -199,7 +204,7 @@ def random_case(rng):
     for _ in range(rng.choice([0, 1, 1, 2, 2, 3, 4, 6])):
         x = rng.random()
         if x < 0.6:
-            body.append({"k": "set", "m": list(rng.choice(MSGS + [""]))})
+            body.append({"k": "set", "m": list(rng.choice(MSGS + [""] + FULL_ROW))})
         elif x < 0.9:
             body.append({"k": "work", "m": []})
         else:
@@ -207,7 +212,7 @@ def random_case(rng):
             break
     cfg = {"mode": rng.choice(["ansi", "ansi", "ansi", "plain", "quiet"]),
            "values": rng.choice([["-", "%", "|", "/"]] * 3 + [["1", "2"], ["1", "2", "3"], ["-", "%", "|", "/", "+", "*", "~"]]), "w": 40, "interval": rng.choice([100, 100, 100, 50, 200, 0]),
-           "start": list(rng.choice(["AAAA", "AAAA", "AAAA", ""])), "end": list(rng.choice(["END", "END", "END", "END", ""])), "body": body, "next": [], "prev": [],
+           "start": list(rng.choice(["AAAA", "AAAA", "AAAA", ""])), "end": list(rng.choice(["END", "END", "END", "END", ""] + FULL_ROW)), "body": body, "next": [], "prev": [],
            "via": rng.choice(["output", "output", "io"]), "other": rng.choice(["plain", "ansi", "verbose", "quiet"])}
     sched = []
     # a random walk over thread ids and clock advances; elements that are not enabled when their turn comes are
@@ -223,7 +228,7 @@ def random_case(rng):
         second = dict(cfg, start=list(cfg["end"]) if rng.random() < 0.6 else list("AAAA"),
                       end=list(cfg["end"]) if rng.random() < 0.6 else list("FIN"),
                       body=[{"k": "set", "m": list(rng.choice(MSGS))}] if rng.random() < 0.3 else [],
-                      prev=[list(x) for x in MSGS] + [list("AAAA"), list("END"), list("FIN"), []])
+                      prev=[list(x) for x in MSGS + FULL_ROW] + [list("AAAA"), list("END"), list("FIN"), []])
         cfg["next"] = [second]
     return {"cfg": cfg, "schedule": sched}
 
@@ -354,19 +359,21 @@ def random_manual_case(rng):
     cfg = {"mode": mode, "fmt": rng.choice(["normal", "normal", "verbose"]), "interval": rng.choice([100, 100, 100, 0, 30, 250, 1000]), "w": 60,
            "via": rng.choice(["output", "io"]), "other": rng.choice(["plain", "ansi", "verbose", "quiet"])}
     ops = []
+    # (the verbose format appends the elapsed time: a message that fills the row would make the frame wrap)
+    pool = MSGS + (FULL_ROW_MANUAL if cfg["fmt"] == "normal" else []) + (BEYOND_ROW if mode == "plain" else [])
     for _ in range(rng.randint(2, 50)):
         x = rng.random()
         dt = rng.choice([0, 0, 1, 10, 50, 99, 100, 101, 250, 1000, 61000])
         if x < 0.12:
-            ops.append({"op": "start", "dt": dt, "m": list(rng.choice(MSGS))})
+            ops.append({"op": "start", "dt": dt, "m": list(rng.choice(pool))})
         elif x < 0.75:
             ops.append({"op": "advance", "dt": dt, "m": []})
         elif x < 0.9:
-            ops.append({"op": "set", "dt": dt, "m": list(rng.choice(MSGS + [""]))})
+            ops.append({"op": "set", "dt": dt, "m": list(rng.choice(pool + [""]))})
         else:
             # often with the message of the last start(): the next start() of the same object then repeats a frame
             last = [o["m"] for o in ops if o["op"] == "start"]
-            m = last[-1] if last and rng.random() < 0.5 else list(rng.choice(MSGS + [""]))
+            m = last[-1] if last and rng.random() < 0.5 else list(rng.choice(pool + [""]))
             ops.append({"op": "finish", "dt": dt, "m": list(m), "reset": rng.random() < 0.5})
             if rng.random() < 0.6:
                 ops.append({"op": "start", "dt": rng.choice([0, 10, 100]), "m": list(m)})
@@ -431,7 +438,9 @@ def run(ctx):
         "granularity of interleaving = the statement's: individual stream writes and sleeps, plus Thread.start/join, "
         "Event.set/is_set and Lock.acquire; what a thread does between two such points is atomic (no bytecode-level races)",
         "virtual clock in integer ms; reading the clock is not a scheduling point; sleep(s) returns once the clock has advanced by s",
-        "messages are non-empty, contain no blanks and no indicator value; every frame fits into the terminal width; "
+        "messages contain no blanks and no indicator value; a decorated frame fits into the row (it may fill it exactly: messages up to "
+        "width - 3 cells); on a not decorated output messages of any length (there nothing has to fit a row; the row-wise clauses then "
+        "claim nothing, the frame text still must be the message); "
         "every character is one cell wide; terminal of unbounded height",
         "NoMix: every terminal row is blank or exactly one frame ' v m' (v an indicator value, m one of the messages of the "
         "run); a frame with a message that has meanwhile been replaced is not a mixture",
